@@ -24,7 +24,9 @@ for c in cases:
         d = c["depth"]
         # typed leaves (helix parameters are always typed numbers; ak.Array([[]]) alone would have unknown type)
         arr = build(c["nested"], d)
-        if c["view"] == "regular" and d >= 1:
+        if c["view"] == "numpy":
+            arr = ak.Array(np.array(c["nested"], dtype=np.int64))
+        elif c["view"] == "regular" and d >= 1:
             arr = ak.to_regular(arr, axis=1)
         elif c["view"] == "sliced":
             arr = ak.concatenate([build(c["prefix"], d), arr])[len(c["prefix"]):] if d > 0 else arr
